@@ -187,6 +187,98 @@ func callersOf(name string) []string {
 	return out
 }
 
+// cacheEntryWriters: "<file>:<function>:<lhs>" for every assignment whose left-hand side is a field path
+// rooted at a variable that was assigned from ChainStoreFFLDB.GetBlock / BlockChain.GetDposBlockByHash
+// (both hand out the shared entry of the decoded block cache), in the repository's non-test Go files.
+func cacheEntryWriters() []string {
+	var out []string
+	isSource := func(f *ex.File, e ast.Expr) bool {
+		c, ok := e.(*ast.CallExpr)
+		if !ok {
+			return false
+		}
+		src := f.Src(c.Fun)
+		return strings.HasSuffix(src, ".GetDposBlockByHash") || strings.HasSuffix(src, "GetFFLDB().GetBlock") ||
+			strings.HasSuffix(src, "fflDB.GetBlock")
+	}
+	root := func(e ast.Expr) (string, bool) {
+		depth := 0
+		for {
+			switch x := e.(type) {
+			case *ast.SelectorExpr:
+				e = x.X
+				depth++
+			case *ast.IndexExpr:
+				e = x.X
+			case *ast.StarExpr:
+				e = x.X
+			case *ast.ParenExpr:
+				e = x.X
+			case *ast.Ident:
+				return x.Name, depth > 0
+			default:
+				return "", false
+			}
+		}
+	}
+	filepath.Walk(*ex.Repo, func(path string, info os.FileInfo, err error) error {
+		if err != nil {
+			return nil
+		}
+		if info.IsDir() {
+			if b := info.Name(); strings.HasPrefix(b, ".") && path != *ex.Repo || b == "vendor" || b == "node_modules" {
+				return filepath.SkipDir
+			}
+			return nil
+		}
+		if !strings.HasSuffix(path, ".go") || strings.HasSuffix(path, "_test.go") {
+			return nil
+		}
+		rel, _ := filepath.Rel(*ex.Repo, path)
+		f := ex.Parse(rel)
+		for _, d := range f.AST.Decls {
+			fd, ok := d.(*ast.FuncDecl)
+			if !ok || fd.Body == nil {
+				continue
+			}
+			tracked := map[string]bool{}
+			ast.Inspect(fd.Body, func(n ast.Node) bool {
+				as, ok := n.(*ast.AssignStmt)
+				if !ok {
+					return true
+				}
+				if len(as.Rhs) == 1 && isSource(f, as.Rhs[0]) {
+					if id, ok := as.Lhs[0].(*ast.Ident); ok && id.Name != "_" {
+						tracked[id.Name] = true
+					}
+				}
+				return true
+			})
+			if len(tracked) == 0 {
+				continue
+			}
+			ast.Inspect(fd.Body, func(n ast.Node) bool {
+				switch st := n.(type) {
+				case *ast.AssignStmt:
+					for _, l := range st.Lhs {
+						if name, isPath := root(l); isPath && tracked[name] {
+							out = append(out, rel+":"+fd.Name.Name+":"+f.Src(l))
+						}
+					}
+				case *ast.IncDecStmt:
+					if name, isPath := root(st.X); isPath && tracked[name] {
+						out = append(out, rel+":"+fd.Name.Name+":"+f.Src(st.X))
+					}
+				}
+				return true
+			})
+		}
+		return nil
+	})
+	sort.Strings(out)
+	return out
+}
+
 func main() {
 	ex.Header("C15")
 	cs := ex.Parse("blockchain/chainstoreffldb.go")
@@ -247,6 +339,8 @@ func main() {
 	// who calls the two reorganisation entry points that do NOT clean the UTXO cache (whole repo, non-test files)
 	ex.DefStrList("reorganizeChain2Callers", callersOf("reorganizeChain2"))
 	ex.DefStrList("exportedReorganizeChain2Callers", callersOf("ReorganizeChain2"))
+	// functions that write through the pointer they got from the decoded block cache
+	ex.DefStrList("blockCacheEntryWriters", cacheEntryWriters())
 	// the condition under which GetBlock / WriteMessage evict (the if whose body deletes from the cache map)
 	ex.DefStr("blockCacheEvictCond", evictCond(cs, "ChainStoreFFLDB.GetBlock", "c.blocksCache"))
 	ex.DefStr("sendCacheEvictCond", evictCond(pm, "WriteMessage", "blocksCache"))
